@@ -490,7 +490,7 @@ func (c *Ctx) oblWith(rule, key string, pos token.Pos, p *proverCtx, f *ssa.Func
 			relevant = append(relevant, s)
 		}
 	}
-	if len(relevant) == 0 || len(relevant) > 16 || recursive {
+	if len(relevant) == 0 || len(relevant) > 16*c.scale() || recursive {
 		c.resolve(rule, key, pos, f, b, false, env, okMsg, badMsg)
 		return
 	}
